@@ -34,6 +34,9 @@ type fuzzSpec struct {
 	Transfer  float64  `json:"transfer"` // weight of leadership-transfer requests (and of their timers)
 	CrashPts  float64  `json:"crashPts"` // weight of arming a crash point inside a later storage-mutating step
 	Name      string   `json:"name"`
+	// drift-directed search: first replay this stimulus prefix (a recorded run up to the step where the real code
+	// left the specification), then continue randomly from the state reached
+	Prefix []simStep `json:"prefix,omitempty"`
 }
 
 // every storage-mutating hook point of the handlers (value files, log segments, snapshot files)
@@ -276,6 +279,22 @@ func runFuzz(f fuzzSpec, run int, out *bufio.Writer) (err error) {
 	c.settle()
 	c.record(map[string]interface{}{"k": "init"}, map[string]interface{}{"kind": "init", "nodes": f.Nodes, "voters": f.Voters, "nonvoters": f.Nonvoters, "eager": f.Eager})
 	cmds, cfgReqs := 0, 0
+	for _, st := range f.Prefix {
+		if st.K == "final" || st.K == "fairCheck" || st.K == "shutdown" {
+			continue
+		}
+		if st.K == "client" {
+			for _, op := range st.Ops {
+				if op.ID > cmds {
+					cmds = op.ID
+				}
+			}
+		}
+		if st.K == "task" && st.Task == "changeConfig" {
+			cfgReqs++
+		}
+		c.do(st)
+	}
 	for step := 0; step < f.Steps; step++ {
 		ch := c.fuzzChoices(&f, rng, &cmds, &cfgReqs)
 		if len(ch) == 0 {
@@ -514,7 +533,16 @@ func (c *simCluster) stepFinal() map[string]interface{} {
 			}
 		}
 	}
-	return map[string]interface{}{"kind": "final", "pending": pending}
+	// a completed task keeps the outcome it completed with (each task completes exactly once)
+	changed := []interface{}{}
+	for _, st := range c.tasks {
+		if st.done {
+			if now := st.outcomeNow(); now != st.res {
+				changed = append(changed, map[string]interface{}{"task": st.id, "op": st.kind, "n": st.node, "first": st.res, "now": now})
+			}
+		}
+	}
+	return map[string]interface{}{"kind": "final", "pending": pending, "changed": changed}
 }
 
 func TestVerifFuzz(t *testing.T) {
